@@ -1,7 +1,7 @@
 """C19 — P2P framing and primitive wire codecs are exact inverses and reject corruption.
 
 Bounded-exhaustive enumerations (E1, plus one small E2 history search) of the real buidl code against
-the independent byte layouts in mc.ref.p2pref.  Five worker pools ("engines"); the first and the fourth
+the independent byte layouts in mc.ref.p2pref.  Six worker pools ("engines"); "prims", "messages" and "frames"
 bundle several sub-explorations (tagged `part` in the case descriptor) because on a busy machine the
 pool start-up costs more than the whole exploration:
 
@@ -15,8 +15,19 @@ messages  [header]   80-byte block header codec, full product of field boundary 
           [msgser]   getheaders / getdata / getcfilters / getcfheaders / getcfcheckpt / verack / generic: serialize vs layout
           [msgparse] headers / cfilter / cfheaders / cfcheckpt / ping / pong / verack: parse(reference bytes) = values,
                      each parse called exactly like SimpleNode.wait_for calls it (cls.parse(stream))
+          [reuse]    every codec object used repeatedly (serialize x4, stream, parse twice), getdata add/serialize histories,
+                     further API entry points (default network, parse_header keywords, Block.parse, all-default messages)
+          [fieldrange] integer fields given values outside the field: rejected, or bytes that decode back to the value;
+                     relay truthiness; byte fields of a wrong width (counted only)
+          [hdrtx]    headers messages with a non-zero transaction count at every / sampled interior positions
+          [trunc]    every proper prefix of the fixed-layout payloads (counted only: the statement rejects envelopes, not payloads)
+          [widths]   (in prims) integer widths 0,5,6,7,16,20,33,64, strides through the value gaps, every wide CompactSize form, input types
+frames    [cmdbytes] every byte value 0x01..0xff at the first/middle/last position of commands of length 1,2,11,12 (NUL: counted only)
+          [cmdsum]   per real command name x payload size: one fault each in checksum, payload, length, plus every magic bit
 node      E2: histories of incoming envelopes through the real SimpleNode.wait_for/send/handshake on a fake
-          socket: bytes sent, returned message, unread remainder vs a protocol model
+          socket: bytes sent, returned message, unread remainder vs a protocol model; the same with logging switched on;
+          damaged pings/versions, short and wrong length fields, a large unknown message, non-ASCII commands;
+          mode "socket": the real SimpleNode.__init__ over a socketpair that delivers at most `step` bytes per recv
 
 Fingerprints name the root cause, not the case: a failing case is re-tried on the simplest input of its
 family (simplest envelope of the network, one-entry message, smallest sub-deviation of the version
@@ -1213,12 +1224,22 @@ def node_world(seed):
         "cfheaders": (b"cfheaders", R.cfheaders_msg(0, stop, filler(seed, "p", 0, 32), [H("a"), H("b")])),
         "cfcheckpt": (b"cfcheckpt", R.cfcheckpt_msg(0, stop, [H("c")])),
         "unknown": (b"sendheaders", b""),
+        "bigunknown": (b"block", pattern(seed, "payload", BIG_EVENT)),
+        "nonascii": (b"caf\xe9", b""),
         "badsum": None,
         "wrongnet": None,
+        "short": None,
+        "badlen": None,
+        "badping": None,
+        "badver": None,
     }
 
 
-EVENTS = ["version", "verack", "ping1", "ping2", "pong1", "headers", "cfilter", "cfheaders", "cfcheckpt", "unknown", "badsum", "wrongnet"]
+BIG_EVENT = 70000
+EVENTS = ["version", "verack", "ping1", "ping2", "pong1", "headers", "cfilter", "cfheaders", "cfcheckpt", "unknown", "bigunknown", "badsum", "wrongnet",
+          "short", "badlen", "badping", "badver"]  # fmt: skip
+# envelopes the strict reference receiver refuses: wait_for must raise when it reaches one, and must not answer it
+BAD_EVENTS = ("badsum", "wrongnet", "short", "badlen", "badping", "badver")
 WANTS = ["VerAckMessage", "PingMessage", "PongMessage", "HeadersMessage", "CFilterMessage", "CFHeadersMessage", "CFCheckPointMessage"]
 TARGET_OF = {"VerAckMessage": "verack", "PingMessage": "ping2", "PongMessage": "pong1", "HeadersMessage": "headers", "CFilterMessage": "cfilter",
              "CFHeadersMessage": "cfheaders", "CFCheckPointMessage": "cfcheckpt"}  # fmt: skip
@@ -1235,19 +1256,29 @@ def gen_node(tier, seed):
             pre_alphabet = [e for e in EVENTS if node_cmd(e) != COMMANDS[want]]
             for d in range(depth + 1):
                 for pre in itertools.product(pre_alphabet, repeat=d):
-                    if sum(1 for e in pre if e in ("badsum", "wrongnet")) > 1:
+                    if sum(1 for e in pre if e in BAD_EVENTS) > 1:
                         continue
                     cases.append({"mode": "wait", "net": net, "want": [want], "hist": list(pre) + [TARGET_OF[want], "unknown"], "seed": seed})
+                    if d <= 1:  # the same histories with SimpleNode.logging switched on (send/read print the envelope)
+                        cases.append({"mode": "wait", "net": net, "want": [want], "hist": list(pre) + [TARGET_OF[want], "unknown"], "seed": seed, "logging": True})
             cases.append({"mode": "wait", "net": net, "want": [want], "hist": ["unknown", "version"], "seed": seed})  # never arrives
+            for lg in (False, True):  # checksum-valid envelope whose command has a byte >= 0x80: ignored or refused, never mistaken
+                cases.append({"mode": "wait-nonascii", "net": net, "want": [want], "hist": ["nonascii", TARGET_OF[want]], "seed": seed, "logging": lg})
         for pair in (["HeadersMessage", "CFHeadersMessage"], ["PingMessage", "VerAckMessage"]):
             for pre in itertools.product(EVENTS, repeat=2):
                 cases.append({"mode": "wait", "net": net, "want": pair, "hist": list(pre) + ["verack", "headers"], "seed": seed})
+        # wait_for() without any wanted class: answers pings/versions until the stream ends, then raises
+        for hist in ([], ["verack"], ["version", "ping1", "verack"], ["ping2", "badsum", "ping1"], ["bigunknown", "ping1", "short", "ping2"]):
+            cases.append({"mode": "wait", "net": net, "want": [], "hist": hist, "seed": seed})
+        cases.append({"mode": "send", "net": net, "seed": seed, "logging": True})
+        cases.append({"mode": "handshake", "net": net, "hist": ["version", "ping1", "verack"], "seed": seed, "logging": True})
+        cases += gen_socket(tier, seed, net)
     return cases
 
 
 def node_cmd(e):
     return {"version": b"version", "verack": b"verack", "ping1": b"ping", "ping2": b"ping", "pong1": b"pong", "headers": b"headers", "cfilter": b"cfilter",
-            "cfheaders": b"cfheaders", "cfcheckpt": b"cfcheckpt", "unknown": b"sendheaders"}.get(e)  # fmt: skip
+            "cfheaders": b"cfheaders", "cfcheckpt": b"cfcheckpt", "unknown": b"sendheaders", "bigunknown": b"block", "nonascii": b"caf\xe9"}.get(e)  # fmt: skip
 
 
 def wire_event(world, net, e):
@@ -1257,6 +1288,20 @@ def wire_event(world, net, e):
         return bytes(raw)
     if e == "wrongnet":
         return R.envelope(NETS[(NETS.index(net) + 1) % 4], b"verack", b"")
+    if e == "short":  # declares 2^20 more payload bytes than the whole remaining stream can hold
+        raw = R.envelope(net, b"ping", bytes(range(1, 9)))
+        return raw[:16] + R.le(8 + (1 << 20), 4) + raw[20:]
+    if e == "badlen":  # payload-less envelope whose length field says 1: swallows the next byte (if any), checksum of the empty payload
+        raw = R.envelope(net, b"verack", b"")
+        return raw[:16] + R.le(1, 4) + raw[20:]
+    if e == "badping":  # a ping whose payload was damaged in transit: must not be answered
+        raw = bytearray(R.envelope(net, b"ping", bytes(range(1, 9))))
+        raw[-1] ^= 1
+        return bytes(raw)
+    if e == "badver":  # a version message with a damaged checksum: must not be acknowledged
+        raw = bytearray(R.envelope(net, *world["version"]))
+        raw[20] ^= 0x10
+        return bytes(raw)
     cmd, payload = world[e]
     return R.envelope(net, cmd, payload)
 
@@ -1300,10 +1345,13 @@ def model_describe(name, payload):
     return (name,)
 
 
-def make_node(netmod, net, incoming):
+LOGTAG = {False: "", True: " [logging on]"}
+
+
+def make_node(netmod, net, incoming, logging=False):
     node = object.__new__(netmod.SimpleNode)
     node.network = net
-    node.logging = False
+    node.logging = logging
     node.socket = FakeSock()
     node.stream = io.BufferedReader(ChunkRaw(incoming, 1460))
     return node
@@ -1319,7 +1367,10 @@ def run_node(case):
     vc = {"engine": "node", "case": case}
     world = node_world(seed)
     mode = case["mode"]
+    logging = bool(case.get("logging"))
     classes = {n: getattr(netmod, n, None) or getattr(cf, n) for n in COMMANDS}
+    if mode == "socket":
+        return run_socket(case, netmod, world)
     if mode == "send":
         vf = ver_concrete({"f": ver_base(), "seed": seed})
         stop = filler(seed, "stop", 3, 32)
@@ -1338,7 +1389,7 @@ def run_node(case):
             ("sendheaders", lambda: netmod.GenericMessage(b"sendheaders", b""), b""),
         ]
         for cmd, mk, payload in msgs:
-            node = make_node(netmod, net, b"")
+            node = make_node(netmod, net, b"", logging)
             r = attempt(lambda: node.send(mk()))
             want = R.envelope(net, cmd.encode(), payload)
             res.states += 1
@@ -1347,11 +1398,11 @@ def run_node(case):
                 rg = region(node.socket.sent, want)
                 res.violation(f"C19/node/send/{cmd}/{rg}" + (f"/{net}" if rg == "magic" else ""), vc, show(r) if rej(r) else show(node.socket.sent, 60), show(want, 60), "SimpleNode.send does not put the message's envelope on the wire")
             else:
-                res.ok("send: wire bytes == envelope(command, payload)", nontrivial=("send", net, cmd))
+                res.ok("send: wire bytes == envelope(command, payload)" + LOGTAG[logging], nontrivial=("send", net, cmd, logging))
         return res
     hist = case["hist"]
     incoming = b"".join(wire_event(world, net, e) for e in hist)
-    node = make_node(netmod, net, incoming)
+    node = make_node(netmod, net, incoming, logging)
     if mode == "handshake":
         clock, draw = 1415483324.5, 0x0807060504030201
 
@@ -1387,7 +1438,7 @@ def run_node(case):
         if rej(r) != (not done):
             res.violation("C19/node/handshake/completion", vc, repr(r), "completes" if done else "fails (no verack)", "handshake completion does not follow the received messages")
         elif sent == good:
-            res.ok("handshake: wire bytes == model", nontrivial=("hs", net, tuple(hist)))
+            res.ok("handshake: wire bytes == model" + LOGTAG[logging], nontrivial=("hs", net, tuple(hist), logging))
         elif sent == swapped:
             res.violation("C19/version/port-byte-order", vc, show(sent, 120), show(good, 120), "handshake sends a version message whose two port fields are little-endian (protocol: big-endian)")
         else:
@@ -1403,7 +1454,13 @@ def run_node(case):
     exp_sent, exp = b"", None
     consumed = 0
     for e in hist:
-        if e in ("badsum", "wrongnet"):
+        if e in BAD_EVENTS:
+            try:  # the harness' own claim "this envelope is bad" is decided by the strict reference receiver on the actual stream
+                R.parse_envelope(net, incoming, consumed)
+                res.skip("damaged envelope that the reference receiver happens to accept in this stream (checksum coincidence)")
+                return res
+            except R.Reject:
+                pass
             exp = "reject"
             break
         consumed += len(wire_event(world, net, e))
@@ -1419,13 +1476,22 @@ def run_node(case):
         exp = "reject"  # stream ends before a wanted message arrives
     res.states += len(hist)
     res.transitions += len(hist)
-    key = ("wait", net, tuple(wants), tuple(hist))
+    key = ("wait", net, tuple(wants), tuple(hist), logging)
+    if mode == "wait-nonascii":
+        # not asserted which of the two (Bitcoin Core refuses such a command field, buidl without logging ignores it); asserted: nothing else happens
+        if rej(r) and sent == b"":
+            res.ok("envelope with a non-ASCII command: refused" + LOGTAG[logging], nontrivial=key)
+        elif not rej(r) and sent == exp_sent and attempt(describe, r) == model_describe(wants[0], world[hist[1]][1]):
+            res.ok("envelope with a non-ASCII command: ignored, next message returned" + LOGTAG[logging], nontrivial=key)
+        else:
+            res.violation("C19/node/wait-for/nonascii-command-mistaken", vc, {"result": show(r if rej(r) else attempt(describe, r)), "sent": show(sent, 60)}, "refused (nothing sent), or ignored and the following wanted message returned (and answered if it is a ping)", "an envelope with a non-ASCII command changes what wait_for returns or sends")
+        return res
     if sent != exp_sent:
         res.violation(f"C19/node/auto-reply/{region(sent, exp_sent)}", vc, show(sent, 80), show(exp_sent, 80), "verack/pong replies sent while waiting differ from the model")
         return res
     if exp == "reject":
         if rej(r):
-            res.ok("wait_for: corrupted/foreign envelope or end of stream -> raised", nontrivial=key)
+            res.ok("wait_for: corrupted/foreign envelope or end of stream -> raised" + LOGTAG[logging], nontrivial=key)
         else:
             res.violation("C19/node/wait-for/accepted-after-bad-envelope", vc, show(attempt(describe, r)), "raised", "wait_for returned a message although the stream held a bad envelope / ended first")
         return res
@@ -1441,7 +1507,957 @@ def run_node(case):
     elif rest != incoming[consumed:]:
         res.violation("C19/node/wait-for/stream-position", vc, len(rest), len(incoming) - consumed, "wait_for consumed bytes beyond the returned message")
     else:
-        res.ok(f"wait_for -> {exp[0]} == model", nontrivial=key, sample={"net": net, "want": wants, "hist": hist} if len(hist) == 4 and net == "signet" else None)
+        res.ok(f"wait_for -> {exp[0]} == model" + LOGTAG[logging], nontrivial=key, sample={"net": net, "want": wants, "hist": hist} if len(hist) == 4 and net == "signet" else None)
+    return res
+
+
+# ====================================================================== real SimpleNode.__init__ over a socket pair (node engine, mode "socket")
+DEFAULT_PORT = {"mainnet": 8333, "testnet": 18333, "signet": 38333, "regtest": 18444}  # chain parameters (nDefaultPort)
+SOCK_HOST = "127.0.0.1"
+
+
+def gen_socket(tier, seed, net):
+    big = 100000 if tier == "quick" else 1 << 20
+    cases = []
+    for step, b in ((1, 2000), (7, big), (1460, big), (1 << 20, big)):
+        for sc in ("wait", "short", "handshake"):
+            cases.append({"mode": "socket", "net": net, "scenario": sc, "step": step, "big": b, "port": None, "seed": seed})
+    cases.append({"mode": "socket", "net": net, "scenario": "wait", "step": 1460, "big": 2000, "port": 12345, "seed": seed})
+    return cases
+
+
+def socket_stub(step):
+    """Stand-in for the `socket` module inside buidl.network: socket() hands out one end of a real socketpair (a genuine
+    socket.socket, so makefile()/sendall() are the standard library's own) whose connect() only records the address and
+    whose recv delivers at most `step` bytes per call, like segments arriving one at a time."""
+    import socket as real
+
+    state = {"connected": [], "peer": None, "sock": None}
+
+    class ChunkSock(real.socket):
+        def connect(self, addr):
+            state["connected"].append(addr)
+
+        def connect_ex(self, addr):
+            state["connected"].append(addr)
+            return 0
+
+        def recv_into(self, buf, nbytes=0, flags=0):
+            n = min(nbytes or len(buf), step)
+            return super().recv_into(memoryview(buf)[:n], n, flags)
+
+        def recv(self, n, flags=0):
+            return super().recv(min(n, step), flags)
+
+    class Stub:
+        def socket(self, *a, **kw):
+            x, y = real.socketpair()
+            state["peer"] = y
+            state["sock"] = ChunkSock(fileno=x.detach())
+            return state["sock"]
+
+        def __getattr__(self, name):
+            return getattr(real, name)
+
+    return Stub(), state
+
+
+def run_socket(case, netmod, world):
+    import socket as real
+    import threading
+
+    res = Res()
+    net, sc, step, seed = case["net"], case["scenario"], case["step"], case.get("seed", 0)
+    vc = {"engine": "node", "case": case}
+    bigenv = R.envelope(net, b"block", pattern(seed, "payload", case["big"]))
+    ev = lambda e: wire_event(world, net, e)
+    if sc == "wait":
+        wire = ev("version") + ev("ping1") + bigenv + ev("verack") + ev("pong1")
+    elif sc == "short":
+        wire = ev("ping1") + bigenv[:-1]
+    else:
+        wire = ev("version") + ev("verack")
+    stub, st = socket_stub(step)
+    clock, draw = 1415483324.5, 0x0807060504030201
+
+    class Clock:
+        @staticmethod
+        def time():
+            return clock
+
+    old = (netmod.socket, netmod.time, netmod.randint)
+    netmod.socket, netmod.time, netmod.randint = stub, Clock, (lambda a, b: draw)
+    writer = None
+    out = {}
+    try:
+        kw = {"network": net}
+        if case["port"] is not None:
+            kw["port"] = case["port"]
+        node = attempt(netmod.SimpleNode, SOCK_HOST, **kw)
+        if not rej(node) and st["peer"] is not None:
+            peer = st["peer"]
+
+            def feed():
+                try:
+                    peer.sendall(wire)
+                    peer.shutdown(real.SHUT_WR)
+                except OSError:
+                    pass
+
+            writer = threading.Thread(target=feed, daemon=True)
+            writer.start()
+            if sc == "handshake":
+                out["r"] = attempt(node.handshake)
+            else:
+                out["r"] = attempt(lambda: node.wait_for(netmod.VerAckMessage))
+            if sc == "wait":
+                out["next"] = attempt(node.read)
+                out["eof"] = attempt(node.read)
+            sent = b""
+            while True:
+                try:
+                    chunk = peer.recv(1 << 16, real.MSG_DONTWAIT)
+                except (BlockingIOError, OSError):
+                    break
+                if not chunk:
+                    break
+                sent += chunk
+            out["sent"] = sent
+    finally:
+        netmod.socket, netmod.time, netmod.randint = old
+        for closer in (lambda: node.stream.close(), lambda: st["sock"].close(), lambda: st["peer"].close()):
+            try:
+                closer()
+            except Exception:
+                pass
+        if writer is not None:
+            writer.join(20)
+            if writer.is_alive():
+                raise RuntimeError("socket harness: feeder thread did not finish")
+    res.states += 1
+    res.transitions += 1
+    key = ("socket", net, sc, step, case["big"], case["port"])
+    if rej(node) or "sent" not in out:
+        res.violation("C19/socket/init", vc, repr(node), "a connected node", "SimpleNode(host, network=...) fails on a working socket")
+        return res
+    if getattr(node, "network", None) != net:  # send/read/wait_for frame with node.network (make_node above sets the same attribute)
+        res.violation("C19/socket/init/network-not-kept", vc, show(getattr(node, "network", None)), net, "SimpleNode(host, network=X) does not frame its traffic for network X")
+        return res
+    want_addr = (SOCK_HOST, case["port"] if case["port"] is not None else DEFAULT_PORT[net])
+    if st["connected"] != [want_addr]:
+        res.violation(f"C19/socket/connect/{'explicit-port' if case['port'] is not None else 'default-port-' + net}", vc, show(st["connected"]), show([want_addr]), "SimpleNode connects to another address than (host, given port or the network's default P2P port)")
+        return res
+    r, sent = out["r"], out["sent"]
+    pong1 = R.envelope(net, b"pong", world["ping1"][1])
+    if sc == "short":
+        if not rej(r):
+            res.violation("C19/socket/short-payload-accepted", vc, show(attempt(describe, r)), "raised", "connection closed one byte before the declared payload length, yet wait_for returned")
+        elif sent != pong1:
+            res.violation(f"C19/socket/auto-reply/{region(sent, pong1) if sent else 'missing'}", vc, show(sent, 60), show(pong1, 60), "replies sent over the real socket differ from the model")
+        else:
+            res.ok("socket: stream closed inside a declared payload -> raised, earlier ping answered", nontrivial=key)
+        return res
+    if sc == "handshake":
+        vf = {"version": 70015, "services": 0, "timestamp": int(clock), "recv_services": 0, "recv_ip": b"\x00" * 4, "recv_port": 8333, "send_services": 0,
+              "send_ip": b"\x00" * 4, "send_port": 8333, "nonce": R.le(draw, 8), "user_agent": b"/programmingblockchain:0.1/", "start_height": 0, "relay": True}  # fmt: skip
+        tail = R.envelope(net, b"verack", b"")
+        good = R.envelope(net, b"version", R.version_msg(vf)) + tail
+        swapped = R.envelope(net, b"version", R.version_msg(dict(vf, recv_port=swap16(8333), send_port=swap16(8333)))) + tail
+        if rej(r):
+            res.violation("C19/socket/handshake-rejected", vc, repr(r), "completes", "handshake over a real socket fails although version and verack arrive intact (delivered in pieces)")
+        elif sent == good:
+            res.ok("socket: handshake wire bytes == model", nontrivial=key)
+        elif sent == swapped:
+            res.violation("C19/version/port-byte-order", vc, show(sent, 120), show(good, 120), "handshake sends a version message whose two port fields are little-endian (protocol: big-endian)")
+        else:
+            res.violation(f"C19/socket/handshake/sent/{region(sent, good)}", vc, show(sent, 120), show(good, 120), "bytes sent during the handshake over the real socket differ from the model")
+        return res
+    exp_sent = R.envelope(net, b"verack", b"") + pong1
+    if rej(r) or type(r).__name__ != "VerAckMessage":
+        res.violation("C19/socket/wait-for-rejected", vc, show(r), "VerAckMessage", "well-formed envelopes (one of them large) delivered in pieces over a real socket are refused")
+    elif sent != exp_sent:
+        res.violation(f"C19/socket/auto-reply/{region(sent, exp_sent) if sent else 'missing'}", vc, show(sent, 60), show(exp_sent, 60), "replies sent over the real socket differ from the model")
+    elif rej(out["next"]) or attempt(env_fields, out["next"]) != {"command": b"pong", "payload": world["pong1"][1], "magic": R.MAGIC[net]}:
+        res.violation("C19/socket/stream-position", vc, show(out["next"]), "pong envelope", "the envelope following the awaited message is not the next one read")
+    elif not rej(out["eof"]):
+        res.violation("C19/socket/eof-accepted", vc, show(attempt(env_fields, out["eof"])), "raised", "read() on a closed connection returns an envelope")
+    else:
+        res.ok("socket: wait_for/read over real SimpleNode.__init__ == model", nontrivial=key, sample={"net": net, "step": step, "big": case["big"]} if step == 7 and net == "signet" else None)
+    return res
+
+
+# ====================================================================== frames: command byte alphabet, per-command / per-size verification
+def byteclass(b):
+    if b == 0:
+        return "nul"
+    if b in (9, 10, 11, 12, 13, 32):
+        return "whitespace"
+    if b < 32:
+        return "control"
+    if 48 <= b <= 57:
+        return "digit"
+    if 65 <= b <= 90:
+        return "uppercase"
+    if 97 <= b <= 122:
+        return "lowercase"
+    if b < 127:
+        return "punctuation"
+    return "del" if b == 127 else "high-bit"
+
+
+def gen_cmdbytes(tier, seed):
+    cases = []
+    for net in NETS:
+        for ln in (1, 2, 11, 12):
+            for pos in sorted({0, ln // 2, ln - 1}):
+                cases.append({"net": net, "len": ln, "pos": pos, "seed": seed})
+    return cases
+
+
+def run_cmdbytes(case):
+    from buidl.network import NetworkEnvelope
+
+    res = Res()
+    net, ln, pos, seed = case["net"], case["len"], case["pos"], case.get("seed", 0)
+    vc = {"engine": "frames", "case": case}
+    stem = seed_cmd(seed)[:ln]
+    for b in range(256):
+        cmd = stem[:pos] + bytes([b]) + stem[pos + 1 :]
+        for plen in (0, 3):
+            payload = pattern(seed, "payload", plen)
+            if b == 0:
+                # a NUL inside the command: not a protocol command, nothing asserted; what the library does is counted
+                where = "only byte" if ln == 1 else "leading" if pos == 0 else "trailing" if pos == ln - 1 else "embedded"
+                ser = attempt(lambda: NetworkEnvelope(cmd, payload, network=net).serialize())
+                if rej(ser):
+                    res.skip(f"command with a NUL ({where}; not asserted): serialize refused")
+                    continue
+                e = attempt(NetworkEnvelope.parse, io.BytesIO(ser), network=net)
+                got = "refused" if rej(e) else "command returned unchanged" if bytes(e.command) == cmd else "command returned without the NUL" if bytes(e.command) == cmd.replace(b"\x00", b"") else "other command returned"
+                res.skip(f"command with a NUL ({where}; not asserted): parse -> {got}")
+                continue
+            cls = byteclass(b)
+            ref = R.envelope(net, cmd, payload)
+            env = attempt(NetworkEnvelope, cmd, payload, network=net)
+            ser = attempt(env.serialize) if not rej(env) else env
+            if ser != ref:
+                res.violation(f"C19/cmdbytes/serialize/{region(ser, ref)}/{cls}", vc, {"cmd": cmd.hex(), "got": show(ser)}, show(ref), "serialize() of a command containing this byte differs from magic|command|length|checksum|payload")
+                continue
+            bad = None
+            for how, mk in (("parse", lambda: io.BytesIO(ref + MARK)), ("parse-chunked", lambda: io.BufferedReader(ChunkRaw(ref + MARK, 5)))):
+                s = mk()
+                e = attempt(NetworkEnvelope.parse, s, network=net)
+                if rej(e):
+                    bad = (f"C19/cmdbytes/{how}-rejected/{cls}", repr(e), "parsed", "well-formed envelope whose command contains this byte is rejected")
+                    break
+                f = attempt(env_fields, e)
+                want = {"command": cmd, "payload": payload, "magic": R.MAGIC[net]}
+                if f != want:
+                    k = "raised" if rej(f) else [k for k in want if f[k] != want[k]][0]
+                    bad = (f"C19/cmdbytes/{how}-{k}/{cls}", show(f if rej(f) else f[k]), show(want.get(k)), "parsed envelope does not report the command bytes that are on the wire")
+                    break
+                if s.read() != MARK:
+                    bad = (f"C19/cmdbytes/{how}-position/{cls}", "differs", MARK.hex(), "parse consumed a wrong number of bytes")
+                    break
+                back = attempt(e.serialize)
+                if back != ref:
+                    bad = (f"C19/cmdbytes/{how}-reserialize/{region(back, ref)}/{cls}", show(back), show(ref), "parse -> serialize is not the identity")
+                    break
+            if bad:
+                res.violation(bad[0], vc, {"cmd": cmd.hex(), "got": bad[1]}, bad[2], bad[3])
+            else:
+                res.ok(f"command byte {cls}: serialize==ref, parse==fields, reserialize", nontrivial=(net, cmd, plen))
+    return res
+
+
+ALL_CMDS = list(dict.fromkeys(REAL_CMDS + list(COMMANDS.values())))
+
+
+def gen_cmdsum(tier, seed):
+    plens = [0, 1, 100000] + ([1 << 20] if tier == "thorough" else [])
+    cases = []
+    for net in NETS:
+        for c in ALL_CMDS:
+            for p in plens:
+                cases.append({"mode": "verify", "net": net, "cmd": c.hex(), "plen": p, "seed": seed})
+        cases.append({"mode": "magicbits", "net": net, "seed": seed})
+    return cases
+
+
+def cmdsum_mutations(plen):
+    """(name, where, fn(raw0, payload) -> bytes): one fault each; `unchanged` must still be accepted"""
+
+    def flip(pos, x):
+        def f(raw0, payload):
+            raw = bytearray(raw0)
+            raw[pos] ^= x
+            return bytes(raw)
+
+        return f
+
+    muts = [("unchanged", "unchanged", lambda raw0, payload: raw0)]
+    for i in range(4):
+        muts.append((f"checksum byte {i} xor 0x10", "checksum", flip(20 + i, 0x10)))
+    muts.append(("length +1, nothing follows", "length", lambda raw0, payload: raw0[:16] + R.le(len(payload) + 1, 4) + raw0[20:]))
+    muts.append(("length +1 and checksum of payload+00, nothing follows", "length", lambda raw0, payload: raw0[:16] + R.le(len(payload) + 1, 4) + R.dsha(payload + b"\x00")[:4] + payload))
+    if plen:
+        for pos in sorted({0, plen // 2, plen - 1}):
+            muts.append((f"payload byte {'first' if pos == 0 else 'last' if pos == plen - 1 else 'middle'} xor 0x01", "payload", flip(24 + pos, 1)))
+        muts.append(("last payload byte missing, original checksum", "truncated", lambda raw0, payload: raw0[:-1]))
+        muts.append(("last payload byte missing, checksum of the short payload", "truncated", lambda raw0, payload: raw0[:20] + R.dsha(payload[:-1])[:4] + payload[:-1]))
+        muts.append(("length -1, original checksum", "length", lambda raw0, payload: raw0[:16] + R.le(len(payload) - 1, 4) + raw0[20:]))
+    return muts
+
+
+def run_cmdsum(case):
+    res = Res()
+    net, seed = case["net"], case.get("seed", 0)
+    vc = {"engine": "frames", "case": case}
+    before = res.evaluations
+    if case["mode"] == "magicbits":
+        own = R.MAGIC[net]
+        for cmd, plen in ((b"verack", 0), (b"ping", 8)):
+            raw0 = R.envelope(net, cmd, pattern(seed, "payload", plen))
+            for i in range(4):
+                vals = [own[i] ^ (1 << k) for k in range(8)] + [((own[i] << 4) | (own[i] >> 4)) & 0xFF, own[i] ^ 0xFF]
+                for v in vals:
+                    how = "magic byte replaced (single bit / nibble swap / complement)" if v != own[i] else "unchanged"
+                    judge(res, vc, net, raw0[:i] + bytes([v]) + raw0[i + 1 :], how, "magic")
+        res.nontrivial_bulk += res.evaluations - before
+        return res
+    cmd, plen = B(case["cmd"]), case["plen"]
+    SIMPLE = (b"ping", 8)
+
+    def run_one(c, p, name):
+        t = Res()
+        payload = pattern(seed, "payload", p)
+        m = [x for x in cmdsum_mutations(p) if x[0] == name]
+        if not m:
+            return None
+        judge(t, vc, net, m[0][2](R.envelope(net, c, payload), payload), m[0][0], m[0][1])
+        return t
+
+    for name, where, fn in cmdsum_mutations(plen):
+        t = run_one(cmd, plen, name)
+        if t.violations:
+            # root cause: does the simplest envelope fail the same way?  then it is the general defect (same fingerprint as the
+            # corrupt engine); otherwise the fingerprint names what the failure depends on
+            simple = run_one(SIMPLE[0], SIMPLE[1], name)
+            if (cmd, plen) == SIMPLE or (simple is not None and simple.violations):
+                suffix = ""
+            else:
+                small = run_one(cmd, min(plen, 8), name)
+                same_len = run_one(SIMPLE[0], plen, name)
+                if small is not None and small.violations:
+                    suffix = f"/only-command={cmd.decode('latin-1')}"
+                elif same_len is not None and same_len.violations:
+                    suffix = f"/only-payload-length>={plen}"
+                else:
+                    suffix = f"/only-command={cmd.decode('latin-1')}-with-payload-length>={plen}"
+            if suffix:
+                for v in t.violations:
+                    fp = v["fingerprint"]
+                    for tail in ("/checksum", "/payload", "/truncated", "/length", "/unchanged"):
+                        if fp.endswith(tail):
+                            fp = fp[: -len(tail)]
+                    v["fingerprint"] = fp + suffix
+        res.merge(t)
+    res.nontrivial_bulk += res.evaluations - before
+    return res
+
+
+# ====================================================================== prims: further widths, strides through the gaps, wide encodings, input types
+EXTRA_WIDTHS = [0, 5, 6, 7, 16, 20, 33, 64]
+
+
+def stride_values(lo, hi, count):
+    """`count` values spread evenly over [lo, hi) with an odd step (so every low-byte pattern occurs), plus both ends"""
+    step = max(1, (hi - lo) // count) | 1
+    return sorted(set(list(range(lo, hi, step))[:count] + [lo, hi - 1]))
+
+
+def gen_widths(tier, seed):
+    q = tier == "quick"
+    cases = []
+    for fam in ("le", "be"):
+        for w in EXTRA_WIDTHS:
+            cases.append({"kind": "width", "fam": fam, "w": w, "seed": seed})
+        for w in (3, 4, 8, 32):
+            cases.append({"kind": "stride", "fam": fam, "w": w, "count": 4096 if q else 1 << 16})
+    for i, (lo, hi) in enumerate(((0x10400, 1 << 24), (1 << 24, 1 << 32), (1 << 32, 1 << 48), (1 << 48, 1 << 64))):
+        cases.append({"kind": "vstride", "r": [str(lo), str(hi)], "count": 4099 if q else 1 << 16})
+    cases.append({"kind": "vwide", "prefix": 0xFD, "count": 1 << 16})
+    cases.append({"kind": "vwide", "prefix": 0xFE, "count": 4096 if q else 1 << 16})
+    cases.append({"kind": "vwide", "prefix": 0xFF, "count": 4096 if q else 1 << 16})
+    cases.append({"kind": "strlens", "lens": list(range(601, 65530, 4099)), "seed": seed})
+    cases.append({"kind": "types", "seed": seed})
+    return cases
+
+
+def run_widths(case):
+    from buidl import helper
+
+    res = Res()
+    vc = {"engine": "prims", "case": case}
+    kind = case["kind"]
+    if kind in ("width", "stride"):
+        fam, w = case["fam"], case["w"]
+        enc = helper.int_to_little_endian if fam == "le" else helper.int_to_big_endian
+        dec = helper.little_endian_to_int if fam == "le" else helper.big_endian_to_int
+        rref = R.le if fam == "le" else R.be
+        top = 1 << (8 * w)
+        if kind == "width":
+            vals = {0, 1, 255, top - 1, top, top + 1, top + 255, top << 8, -1, -2, -top, top >> 1, (top >> 1) - 1}
+            for k in range(1, w + 1):
+                vals |= {(1 << (8 * k)) - 1, 1 << (8 * k), (1 << (8 * k)) + 1}
+            if w:
+                vals |= {int.from_bytes(filler(case.get("seed", 0), f"wide{w}", i, w), "big") for i in range(4)}
+            vals = sorted(vals)
+        else:
+            vals = stride_values(0, top, case["count"])
+        n_ok = n_rej = nviol = 0
+        for n in vals:
+            got = attempt(enc, n, w)
+            if 0 <= n < top:
+                want = rref(n, w)
+                bad = None
+                if got != want:
+                    bad = (f"C19/ints/int_to_{fam}/w{w}/{'stride' if kind == 'stride' else 'in-range'}", show(got), want.hex(), "fixed-width encoding differs from the layout")
+                else:
+                    back = attempt(dec, want)
+                    if back != n:
+                        bad = (f"C19/ints/{fam}_to_int/w{w}/{'stride' if kind == 'stride' else 'in-range'}", show(back), n, "decoding does not return the encoded value")
+                if bad:
+                    nviol += 1
+                    if nviol <= 4:
+                        res.violation(bad[0], vc, {"n": str(n), "got": bad[1]}, bad[2], bad[3])
+                else:
+                    n_ok += 1
+            elif not rej(got) and not (isinstance(got, bytes) and len(got) == w and attempt(dec, got) == n):
+                nviol += 1
+                if nviol <= 4:
+                    res.violation(f"C19/ints/int_to_{fam}/w{w}/out-of-range", vc, {"n": str(n), "got": show(got)}, "rejected", "value that does not fit the width was encoded")
+            else:
+                n_rej += 1
+        res.bulk(f"{fam}-enc==ref&dec==n (further widths / strides)", n_ok, n_ok)
+        res.bulk(f"{fam}-out-of-range-rejected (further widths)", n_rej, n_rej)
+        return res
+    if kind == "vstride":
+        lo, hi = I(case["r"][0]), I(case["r"][1])
+        n_ok = nviol = 0
+        for n in stride_values(lo, hi, case["count"]):
+            want = R.compact(n)
+            got = attempt(helper.encode_varint, n)
+            bad = None
+            if got != want:
+                bad = (f"C19/varint/encode/stride-{vclass(n)}", show(got), want.hex(), "encode_varint differs from the CompactSize layout")
+            else:
+                s = io.BytesIO(want + MARK)
+                back = attempt(helper.read_varint, s)
+                if back != n or s.read() != MARK:
+                    bad = (f"C19/varint/read/stride-{vclass(n)}", show(back), n, "read_varint does not return the encoded value / wrong stream position")
+            if bad:
+                nviol += 1
+                if nviol <= 4:
+                    res.violation(bad[0], vc, {"n": str(n), "got": bad[1]}, bad[2], bad[3])
+            else:
+                n_ok += 1
+        res.bulk("varint enc==ref & read==n & position (stride)", n_ok, n_ok)
+        return res
+    if kind == "vwide":
+        prefix = case["prefix"]
+        width = {0xFD: 2, 0xFE: 4, 0xFF: 8}[prefix]
+        n_can = n_rejd = n_val = nviol = 0
+        for v in stride_values(0, 1 << (8 * width), case["count"]):
+            raw = bytes([prefix]) + R.le(v, width)
+            rv, rpos, canon = R.read_compact(raw + MARK)
+            s = io.BytesIO(raw + MARK)
+            got = attempt(helper.read_varint, s)
+            if rej(got) and not canon:
+                n_rejd += 1
+            elif got == rv and s.read() == MARK:
+                if canon:
+                    n_can += 1
+                else:
+                    n_val += 1
+            else:
+                nviol += 1
+                if nviol <= 4:
+                    res.violation(f"C19/varint/read-prefix{prefix:#x}", vc, {"raw": raw.hex(), "got": show(got)}, rv, "read_varint returns a wrong value for a wide encoding")
+        res.bulk("canonical==ref", n_can, n_can)
+        res.bulk("noncanonical rejected", n_rejd, n_rejd)
+        res.bulk("noncanonical read as layout value", n_val, n_val)
+        return res
+    if kind == "strlens":
+        seed = case.get("seed", 0)
+        for ln in case["lens"]:
+            data = pattern(seed, "str", ln)
+            want = R.varstr(data)
+            got = attempt(helper.encode_varstr, data)
+            s = io.BytesIO(want + MARK)
+            back = attempt(helper.read_varstr, s)
+            if got != want:
+                res.violation(f"C19/varstr/encode/len{vclass(ln)}", vc, show(got), show(want), "encode_varstr differs from compact-size + bytes")
+            elif back != data or s.read() != MARK:
+                res.violation(f"C19/varstr/read/len{vclass(ln)}", vc, show(back), {"len": ln}, "read_varstr does not return the encoded bytes / leaves the stream at a wrong position")
+            else:
+                res.ok("varstr enc==ref & read==data & position", nontrivial=("str", ln))
+        return res
+    if kind == "types":
+        # other input types a caller can pass: rejected, or the result for the equivalent bytes / int
+        seed = case.get("seed", 0)
+        for ln in (0, 1, 252, 253, 65536):
+            data = pattern(seed, "str", ln)
+            for tname, conv in (("bytearray", bytearray), ("memoryview", memoryview)):
+                got = attempt(helper.encode_varstr, conv(data))
+                if not rej(got) and bytes(got) != R.varstr(data):
+                    res.violation(f"C19/varstr/encode/{tname}", vc, show(got), show(R.varstr(data)), "encode_varstr of a non-bytes buffer is accepted with a wrong result")
+                else:
+                    res.ok(f"encode_varstr({tname}): " + ("rejected" if rej(got) else "== layout"), nontrivial=("vs", tname, ln))
+        for w in (1, 2, 4, 8, 32):
+            data = filler(seed, "typ", w, w)
+            for tname, conv in (("bytearray", bytearray), ("memoryview", memoryview)):
+                for fn, rdec in ((helper.little_endian_to_int, R.from_le), (helper.big_endian_to_int, R.from_be)):
+                    got = attempt(fn, conv(data))
+                    if not rej(got) and got != rdec(data):
+                        res.violation(f"C19/ints/{fn.__name__}/{tname}", vc, show(got), rdec(data), "decoding a non-bytes buffer is accepted with a wrong result")
+                    else:
+                        res.ok(f"{fn.__name__}({tname}): " + ("rejected" if rej(got) else "== value"), nontrivial=(fn.__name__, tname, w))
+        for flag in (False, True):
+            for name, fn, want in (
+                ("int_to_little_endian", lambda: helper.int_to_little_endian(flag, 4), R.le(int(flag), 4)),
+                ("int_to_big_endian", lambda: helper.int_to_big_endian(flag, 4), R.be(int(flag), 4)),
+                ("encode_varint", lambda: helper.encode_varint(flag), R.compact(int(flag))),
+                ("int_to_byte", lambda: helper.int_to_byte(flag), bytes([int(flag)])),
+            ):
+                got = attempt(fn)
+                if not rej(got) and got != want:
+                    res.violation(f"C19/ints/{name}/bool", vc, show(got), want.hex(), "a bool is accepted and encoded as something else than 0/1")
+                else:
+                    res.ok(f"{name}(bool): " + ("rejected" if rej(got) else "== encoding of 0/1"), nontrivial=(name, flag))
+        return res
+    raise ValueError(kind)
+
+
+# ====================================================================== messages: object reuse, API variants
+def gen_reuse(tier, seed):
+    cases = [{"m": "envelope", "net": net, "seed": seed} for net in NETS]
+    cases.append({"m": "messages", "seed": seed})
+    for ln in range(1, 5 if tier == "quick" else 7):
+        cases.append({"m": "getdata-history", "len": ln, "seed": seed})
+    cases.append({"m": "api", "seed": seed})
+    return cases
+
+
+def run_reuse(case):
+    import buidl.network as net
+    import buidl.compactfilter as cf
+    from buidl.block import Block
+
+    res = Res()
+    seed = case.get("seed", 0)
+    vc = {"engine": "messages", "case": case}
+    m = case["m"]
+    if m == "envelope":
+        nw = case["net"]
+        for cmd, plen in ((b"verack", 0), (b"ping", 8), (CMD12, 253), (b"tx", 65536)):
+            payload = pattern(seed, "payload", plen)
+            ref = R.envelope(nw, cmd, payload)
+            want = {"command": cmd, "payload": payload, "magic": R.MAGIC[nw]}
+            env = attempt(net.NetworkEnvelope, cmd, payload, network=nw)
+            first = attempt(env.serialize) if not rej(env) else env
+            if first != ref:
+                res.skip("first serialization already differs (reported by the envelope engine)")
+                continue
+            steps = [("serialize again", lambda: env.serialize(), ref), ("stream", lambda: env.stream().read(), payload), ("stream again", lambda: env.stream().read(), payload),
+                     ("fields after use", lambda: env_fields(env), want), ("serialize third time", lambda: env.serialize(), ref)]  # fmt: skip
+            bad = [(n, g) for n, g, w in ((n, attempt(f), w) for n, f, w in steps) if g != w]
+            e1 = attempt(net.NetworkEnvelope.parse, io.BytesIO(ref), network=nw)
+            e2 = attempt(net.NetworkEnvelope.parse, io.BytesIO(ref), network=nw)
+            if not rej(e1) and not rej(e2):
+                psteps = [("parsed: serialize", lambda: e1.serialize(), ref), ("parsed: fields after serialize", lambda: env_fields(e1), want), ("parsed: serialize again", lambda: e1.serialize(), ref),
+                          ("parsed: stream", lambda: e1.stream().read(), payload), ("parsed: stream again", lambda: e1.stream().read(), payload), ("second parse of the same bytes", lambda: env_fields(e2), want)]  # fmt: skip
+                bad += [(n, g) for n, g, w in ((n, attempt(f), w) for n, f, w in psteps) if g != w]
+            else:
+                bad.append(("parse", e1 if rej(e1) else e2))
+            if bad:
+                res.violation("C19/reuse/envelope", vc, {"step": bad[0][0], "got": show(bad[0][1])}, "same result as the first use", "using an envelope object a second time gives another result than the first time")
+            else:
+                res.ok("envelope: repeated serialize/stream/parse give identical results", nontrivial=("reuse-env", nw, cmd))
+        return res
+    if m == "messages":
+        vf = ver_concrete({"f": ver_base(), "seed": seed})
+        stop = filler(seed, "stop", 3, 32)
+        h = mk_header(seed, 5)
+
+        def getdata():
+            g = net.GetDataMessage()
+            g.add_data(3, stop)
+            g.add_data(1, H("inv", seed, 1))
+            return g
+
+        msgs = [
+            ("version", lambda: net.VersionMessage(**{KW[k]: vf[k] for k in VER_FIELDS}), R.version_msg(vf)),
+            ("verack", net.VerAckMessage, b""),
+            ("ping", lambda: net.PingMessage(vf["nonce"]), vf["nonce"]),
+            ("pong", lambda: net.PongMessage(vf["nonce"]), vf["nonce"]),
+            ("getheaders", lambda: net.GetHeadersMessage(start_block=stop, end_block=H("e", seed)), R.getheaders_msg(70015, 1, [stop], H("e", seed))),
+            ("getdata", getdata, R.inv_msg([(3, stop), (1, H("inv", seed, 1))])),
+            ("getcfilters", lambda: cf.GetCFiltersMessage(start_height=7, stop_hash=stop), R.getcfilters_msg(0, 7, stop)),
+            ("getcfheaders", lambda: cf.GetCFHeadersMessage(start_height=7, stop_hash=stop), R.getcfheaders_msg(0, 7, stop)),
+            ("getcfcheckpt", lambda: cf.GetCFCheckPointMessage(stop_hash=stop), R.getcfcheckpt_msg(0, stop)),
+            ("generic", lambda: net.GenericMessage(b"sendheaders", b"\x01\x02"), b"\x01\x02"),
+            ("header", lambda: Block(h["version"], h["prev"], h["merkle"], h["time"], h["bits"], h["nonce"]), R.header(h)),
+            ("parsed-header", lambda: Block.parse_header(io.BytesIO(R.header(h))), R.header(h)),
+            ("parsed-ping", lambda: net.PingMessage.parse(io.BytesIO(vf["nonce"])), vf["nonce"]),
+            ("parsed-pong", lambda: net.PongMessage.parse(io.BytesIO(vf["nonce"])), vf["nonce"]),
+        ]
+        for name, mk, want in msgs:
+            obj = attempt(mk)
+            first = attempt(obj.serialize) if not rej(obj) else obj
+            if first != want:
+                res.skip("first serialization already differs (reported by the layout engines)")
+                continue
+            later = [attempt(obj.serialize) for _ in range(3)]
+            if any(x != want for x in later):
+                res.violation(f"C19/reuse/{name}/serialize-again", vc, show([x for x in later if x != want][0], 100), show(want, 100), "serialize() of the same message object gives another result when called again")
+            else:
+                res.ok("message: four serialize() calls on one object give identical bytes", nontrivial=("reuse-msg", name))
+        return res
+    if m == "getdata-history":
+        entries = [(1, H("inv", seed, 0)), ((1 << 30) + 2, H("inv", seed, 1))]
+        for ops in itertools.product(("a0", "a1", "s"), repeat=case["len"]):
+            msg = net.GetDataMessage()
+            items = []
+            ser_seen = 0
+            verdict = None
+            for op in ops + ("s",):
+                if op != "s":
+                    items.append(entries[int(op[1])])
+                    if rej(attempt(msg.add_data, *items[-1])):
+                        verdict = ("add_data raised", None)
+                        break
+                    continue
+                got = attempt(msg.serialize)
+                want = R.inv_msg(items)
+                if got != want:
+                    fresh = net.GetDataMessage()
+                    one = attempt(lambda: ([fresh.add_data(t, h) for t, h in items], fresh.serialize())[1])
+                    if one != want:
+                        verdict = "layout"
+                    else:
+                        verdict = ("serialize after earlier serialize/add calls" if ser_seen else "serialize", got)
+                    break
+                ser_seen += 1
+            if verdict == "layout":
+                res.skip("one-shot serialization of these entries already differs (reported by the getdata layout cases)")
+            elif verdict:
+                res.violation("C19/reuse/getdata/history", vc, {"ops": list(ops) + ["s"], "step": verdict[0], "got": show(verdict[1], 100)}, "count|(type,hash)* of the entries added so far", "interleaving add_data and serialize on one GetDataMessage changes what is serialised")
+            else:
+                res.ok("getdata history: every serialize == entries added so far", nontrivial=("gd-hist", ops))
+        return res
+    if m == "api":
+        # constructor default network
+        for cmd, payload in ((b"verack", b""), (b"ping", bytes(8))):
+            got = attempt(lambda: net.NetworkEnvelope(cmd, payload).serialize())
+            cmp_ser(res, vc, "C19/api/envelope-default-network", got, R.envelope("mainnet", cmd, payload), ("api-env", cmd), "NetworkEnvelope(command, payload) without a network is not a mainnet envelope")
+        # header entry points
+        h = mk_header(seed, 6)
+        raw = R.header(h)
+        for how, mk in (("hex-uppercase", lambda: Block.parse_header(hex=raw.hex().upper())), ("hex-keyword-lowercase", lambda: Block.parse_header(hex=raw.hex())), ("stream-keyword", lambda: Block.parse_header(stream=io.BytesIO(raw)))):
+            b = attempt(mk)
+            f = attempt(block_fields, b) if not rej(b) else b
+            if f != h or attempt(b.serialize) != raw:
+                res.violation(f"C19/api/parse-header/{how}", vc, show(f), show(h), "parse_header entry point does not return the encoded header")
+            else:
+                res.ok(f"parse_header({how}) == fields", nontrivial=("api-hdr", how))
+        for how, mk in (("hex='' and no stream", lambda: Block.parse_header(hex="")), ("stream and hex together", lambda: Block.parse_header(io.BytesIO(raw), hex=raw.hex())), ("no argument", lambda: Block.parse_header())):
+            b = attempt(mk)
+            res.ok(f"parse_header({how}) (not asserted): " + ("rejected" if rej(b) else "returned a header"))
+        s = io.BytesIO(raw + b"\x00" + MARK)
+        b = attempt(Block.parse, s)
+        f = attempt(lambda: (block_fields(b), list(b.txs), s.read()))
+        if f != (h, [], MARK):
+            res.violation("C19/api/block-parse-no-transactions", vc, show(f), show(h), "Block.parse(header | tx count 0) does not return the header with an empty transaction list")
+        else:
+            res.ok("Block.parse(header|00) == header fields, no transactions, position", nontrivial=("api-block",))
+        # all-default version message (clock and random generator replaced)
+        class Clock:
+            @staticmethod
+            def time():
+                return 1415483324.5
+
+        old_t, old_r = net.time, net.randint
+        net.time, net.randint = Clock, (lambda a, b: 0x0807060504030201)
+        try:
+            ser = attempt(lambda: net.VersionMessage().serialize())
+        finally:
+            net.time, net.randint = old_t, old_r
+        vf = {"version": 70015, "services": 0, "timestamp": 1415483324, "recv_services": 0, "recv_ip": b"\x00" * 4, "recv_port": 8333, "send_services": 0,
+              "send_ip": b"\x00" * 4, "send_port": 8333, "nonce": R.le(0x0807060504030201, 8), "user_agent": b"/programmingblockchain:0.1/", "start_height": 0, "relay": True}  # fmt: skip
+        classify_version(res, vc, ser, vf, ["all-defaults"], ("api-version-defaults",))
+        # messages built with default arguments: bytes == layout of the values the object itself reports
+        stop = filler(seed, "stop", 4, 32)
+        for name, mk, lay in (
+            ("getcfilters", lambda: cf.GetCFiltersMessage(stop_hash=stop), lambda o: R.getcfilters_msg(o.filter_type, o.start_height, bytes(o.stop_hash))),
+            ("getcfheaders", lambda: cf.GetCFHeadersMessage(stop_hash=stop), lambda o: R.getcfheaders_msg(o.filter_type, o.start_height, bytes(o.stop_hash))),
+            ("getcfcheckpt", lambda: cf.GetCFCheckPointMessage(stop_hash=stop), lambda o: R.getcfcheckpt_msg(o.filter_type, bytes(o.stop_hash))),
+            ("getheaders", lambda: net.GetHeadersMessage(start_block=stop), lambda o: R.getheaders_msg(o.version, o.num_hashes, [bytes(o.start_block)], bytes(o.end_block))),
+        ):
+            o = attempt(mk)
+            got = attempt(o.serialize) if not rej(o) else o
+            want = attempt(lay, o) if not rej(o) else None
+            if rej(got) or rej(want) or got != want or bytes(o.stop_hash if name != "getheaders" else o.start_block) != stop:
+                res.violation(f"C19/api/defaults/{name}", vc, show(got), show(want), "message built with default arguments does not serialise to the layout of its own field values")
+            else:
+                res.ok("default-argument message == layout of its field values", nontrivial=("api-def", name))
+        return res
+    raise ValueError(m)
+
+
+# ====================================================================== messages: field values outside the field
+def field_values(w, negatives=True):
+    top = 1 << (8 * w)
+    v = [top - 1, top, top + 1, top + 255, top << 8, top << 32]
+    if negatives:
+        v += [-1, -2, -(top >> 1), -(top >> 1) - 1, -top, -top - 1]
+    return v
+
+
+def field_encoding(v, w):
+    """the w field bytes (little endian) that mean v read as unsigned or as two's complement, or None when no such bytes exist"""
+    top = 1 << (8 * w)
+    if -(top >> 1) <= v < top:
+        return R.le(v % top, w)
+    return None
+
+
+def gen_fieldrange(tier, seed):
+    return [{"m": m, "seed": seed} for m in ("version", "getheaders", "getdata", "getcf", "header", "relay", "byte-widths")]
+
+
+def probe_int_field(res, vc, name, w, build, base_bytes, lo, negatives=True):
+    """build(v) -> serialised message with the field set to v (or Rejected).  Accepted => whole message == base layout with the
+    field bytes replaced by an encoding that decodes (unsigned or two's complement) to v."""
+    for v in field_values(w, negatives):
+        got = build(v)
+        fb = field_encoding(v, w)
+        if rej(got):
+            res.ok("out-of-field value rejected" if fb is None else "value at the edge of the field rejected", nontrivial=(name, v))
+            continue
+        want = None if fb is None else base_bytes[:lo] + fb + base_bytes[lo + w :]
+        if want is not None and got == want:
+            res.ok("edge value encoded, decodes back to the same value", nontrivial=(name, v))
+            continue
+        res.violation(f"C19/fieldrange/{name}", vc, {"value": str(v), "got": show(got, 100)}, "rejected" if want is None else "rejected or " + show(want, 100), "a value that the field cannot hold is serialised into bytes that decode to another value")
+
+
+def run_fieldrange(case):
+    import buidl.network as net
+    import buidl.compactfilter as cf
+    from buidl.block import Block
+
+    res = Res()
+    seed = case.get("seed", 0)
+    vc = {"engine": "messages", "case": case}
+    m = case["m"]
+    stop = filler(seed, "stop", 5, 32)
+    if m in ("version", "relay", "byte-widths"):
+        base = ver_concrete({"f": ver_base(), "seed": seed})
+        ref = R.version_msg(base)
+        seg = {n: (lo, hi) for n, lo, hi in ver_segments(base)}
+        build = lambda **over: ver_build(net, dict(base, **over))
+        if ver_build(net, base) != ref:
+            res.skip("base version message already differs from the layout (reported by the version cases)")
+            return res
+    if m == "version":
+        for fld, w in (("version", 4), ("services", 8), ("timestamp", 8), ("recv_services", 8), ("send_services", 8), ("start_height", 4)):
+            probe_int_field(res, vc, f"version.{fld}", w, lambda v, fld=fld: build(**{fld: v}), ref, seg[fld][0])
+        for fld in ("recv_port", "send_port"):  # byte order of ports is a separate (known) matter: only values no 2-byte field can hold
+            for v in (1 << 16, (1 << 16) + 1, 1 << 24, -(1 << 15) - 1, -(1 << 16)):
+                got = build(**{fld: v})
+                if rej(got):
+                    res.ok("out-of-field value rejected", nontrivial=(fld, v))
+                else:
+                    res.violation(f"C19/fieldrange/version.{fld}", vc, {"value": v, "got": show(got, 100)}, "rejected", "a port that does not fit two bytes is serialised")
+        return res
+    if m == "relay":
+        for i, v in enumerate((2, -1, 0, None, "", "0", b"", b"\x00", [], [0], 0.0, 0.5)):
+            got = build(relay=v)
+            want = ref[:-1] + (b"\x01" if v else b"\x00")
+            if rej(got) or got == want:
+                res.ok("relay given as a non-bool: " + ("rejected" if rej(got) else "byte follows truthiness"), nontrivial=("relay", i))
+            else:
+                res.violation("C19/fieldrange/version.relay", vc, {"value": repr(v), "got": show(got, 120)}, show(want, 120), "relay flag is neither rejected nor written as 00/01 according to its truth value")
+        return res
+    if m == "getheaders":
+        start = filler(seed, "start", 1, 32)
+        ref = R.getheaders_msg(70015, 1, [start], stop)
+        mk = lambda **kw: attempt(lambda: net.GetHeadersMessage(**dict({"start_block": start, "end_block": stop}, **kw)).serialize())
+        if mk() != ref:
+            res.skip("base getheaders already differs from the layout")
+            return res
+        probe_int_field(res, vc, "getheaders.version", 4, lambda v: mk(version=v), ref, 0)
+        for v in (-1, -253, 1 << 64, (1 << 64) + 1, 1 << 72):
+            got = mk(num_hashes=v)
+            if rej(got):
+                res.ok("out-of-field value rejected", nontrivial=("gh-count", v))
+            else:
+                res.violation("C19/fieldrange/getheaders.count", vc, {"value": str(v), "got": show(got, 100)}, "rejected", "a hash count without a CompactSize encoding is serialised")
+        return res
+    if m == "getdata":
+        ref = R.inv_msg([(1, stop)])
+
+        def mk(v):
+            g = net.GetDataMessage()
+            return attempt(lambda: (g.add_data(v, stop), g.serialize())[1])
+
+        if mk(1) != ref:
+            res.skip("base getdata already differs from the layout")
+            return res
+        probe_int_field(res, vc, "getdata.type", 4, mk, ref, 1)
+        return res
+    if m == "getcf":
+        for name, cls, ref in (("getcfilters", cf.GetCFiltersMessage, R.getcfilters_msg(0, 7, stop)), ("getcfheaders", cf.GetCFHeadersMessage, R.getcfheaders_msg(0, 7, stop))):
+            mk = lambda cls=cls, **kw: attempt(lambda: cls(**dict({"filter_type": 0, "start_height": 7, "stop_hash": stop}, **kw)).serialize())
+            if mk() != ref:
+                res.skip("base message already differs from the layout")
+                continue
+            probe_int_field(res, vc, f"{name}.filter_type", 1, lambda v, mk=mk: mk(filter_type=v), ref, 0)
+            probe_int_field(res, vc, f"{name}.start_height", 4, lambda v, mk=mk: mk(start_height=v), ref, 1)
+        ref = R.getcfcheckpt_msg(0, stop)
+        mk = lambda **kw: attempt(lambda: cf.GetCFCheckPointMessage(**dict({"filter_type": 0, "stop_hash": stop}, **kw)).serialize())
+        if mk() == ref:
+            probe_int_field(res, vc, "getcfcheckpt.filter_type", 1, lambda v: mk(filter_type=v), ref, 0)
+        return res
+    if m == "header":
+        h = mk_header(seed, 7)
+        ref = R.header(h)
+        mk = lambda **kw: attempt(lambda: (lambda d: Block(d["version"], d["prev"], d["merkle"], d["time"], d["bits"], d["nonce"]).serialize())(dict(h, **kw)))
+        if mk() != ref:
+            res.skip("base header already differs from the layout")
+            return res
+        probe_int_field(res, vc, "header.version", 4, lambda v: mk(version=v), ref, 0)
+        probe_int_field(res, vc, "header.time", 4, lambda v: mk(time=v), ref, 68)
+        return res
+    if m == "byte-widths":
+        # byte-string fields given with a wrong width: outside the statement's value space, nothing asserted; the behaviour is counted
+        def note(name, width, got, want_len):
+            how = "rejected" if rej(got) else "accepted, message has the layout length" if len(got) == want_len else "accepted, message length off"
+            res.ok(f"wrong-width {name} (not asserted): {how}")
+
+        for fld, w, alts in (("recv_ip", 4, (0, 3, 5, 16)), ("send_ip", 4, (0, 3, 5, 16)), ("nonce", 8, (0, 7, 9, 16))):
+            for a in alts:
+                note(f"version.{fld}", w, build(**{fld: pattern(seed, "w", a)}), len(ref))
+        start = filler(seed, "start", 1, 32)
+        for a in (0, 31, 33, 64):
+            x = pattern(seed, "w", a)
+            note("getheaders.start_block", 32, attempt(lambda: net.GetHeadersMessage(start_block=x).serialize()), 69)
+            note("getheaders.end_block", 32, attempt(lambda: net.GetHeadersMessage(start_block=start, end_block=x).serialize()), 69)
+            g = net.GetDataMessage()
+            note("getdata.identifier", 32, attempt(lambda: (g.add_data(1, x), g.serialize())[1]), 37)
+            note("getcfilters.stop_hash", 32, attempt(lambda: cf.GetCFiltersMessage(stop_hash=x).serialize()), 37)
+            note("getcfheaders.stop_hash", 32, attempt(lambda: cf.GetCFHeadersMessage(stop_hash=x).serialize()), 37)
+            note("getcfcheckpt.stop_hash", 32, attempt(lambda: cf.GetCFCheckPointMessage(stop_hash=x).serialize()), 33)
+            h = mk_header(seed, 8)
+            note("header.prev_block", 32, attempt(lambda: Block(h["version"], x, h["merkle"], h["time"], h["bits"], h["nonce"]).serialize()), 80)
+            note("header.merkle_root", 32, attempt(lambda: Block(h["version"], h["prev"], x, h["time"], h["bits"], h["nonce"]).serialize()), 80)
+        for a in (0, 3, 5):
+            x = pattern(seed, "w", a)
+            h = mk_header(seed, 8)
+            note("header.bits", 4, attempt(lambda: Block(h["version"], h["prev"], h["merkle"], h["time"], x, h["nonce"]).serialize()), 80)
+            note("header.nonce", 4, attempt(lambda: Block(h["version"], h["prev"], h["merkle"], h["time"], h["bits"], x).serialize()), 80)
+        for a in list(range(0, 8)) + [9, 16]:
+            x = pattern(seed, "w", a)
+            note("ping.nonce", 8, attempt(lambda: net.PingMessage(x).serialize()), 8)
+            note("pong.nonce", 8, attempt(lambda: net.PongMessage(x).serialize()), 8)
+        return res
+    raise ValueError(m)
+
+
+# ====================================================================== messages: headers entries in the interior, truncated payloads
+TXC_BAD = [1, 0xFC, 0xFD, 0xFFFF, 0x10000, 1 << 32]
+ZERO_WIDE = [b"\xfd\x00\x00", b"\xfe\x00\x00\x00\x00", b"\xff" + b"\x00" * 8]
+
+
+def gen_hdrtx(tier, seed):
+    cases = [{"n": n, "pos": "all", "seed": seed} for n in range(1, 6)]
+    for n in (252, 253, 2000):
+        cases.append({"n": n, "pos": "sampled", "seed": seed, "heavy": n == 2000})
+    return cases
+
+
+def run_hdrtx(case):
+    import buidl.network as net
+
+    res = Res()
+    seed, n = case.get("seed", 0), case["n"]
+    vc = {"engine": "messages", "case": case}
+    hdrs = [mk_header(seed, i) for i in range(n)]
+    raws = [R.header(h) for h in hdrs]
+    positions = list(range(n)) if case["pos"] == "all" else sorted({1, n // 2, n - 2})
+
+    def build(pos, tcbytes):
+        return R.compact(n) + b"".join(r + (tcbytes if i == pos else b"\x00") for i, r in enumerate(raws))
+
+    def accepted(raw):
+        msg, _ = parse_like_wait_for(net.HeadersMessage, raw)
+        return not rej(msg)
+
+    assert build(0, b"\x00") == R.headers_msg(hdrs)
+    if not accepted(build(0, b"\x00")):
+        res.skip("well-formed headers message already rejected (reported by the headers cases)")
+        return res
+    for pos in positions:
+        for tc in TXC_BAD:
+            if not accepted(build(pos, R.compact(tc))):
+                res.ok("headers: non-zero transaction count rejected at every position", nontrivial=("hdrtx", n, pos, tc))
+                continue
+            # root cause: is the simplest such message (one header, count 1) accepted too?
+            one = R.compact(1) + raws[0] + R.compact(1)
+            if accepted(one):
+                fp = "C19/headers/nonzero-txcount-accepted"
+            elif accepted(R.compact(1) + raws[0] + R.compact(tc)):
+                fp = f"C19/headers/nonzero-txcount-accepted/count-value-{vclass(tc)}"
+            else:
+                fp = "C19/headers/nonzero-txcount-accepted/" + ("first-entry" if pos == 0 else "last-entry" if pos == n - 1 else "interior-entry")
+            res.violation(fp, vc, f"accepted with tx count {tc} at header {pos} of {n}", "rejected", "headers entry with a non-zero transaction count accepted")
+        for z in ZERO_WIDE:
+            res.ok("headers: transaction count 0 in a wide (non-minimal) encoding (not asserted): " + ("accepted" if accepted(build(pos, z)) else "rejected"))
+    return res
+
+
+def gen_trunc(tier, seed):
+    return [{"m": m, "seed": seed} for m in ("header", "headers", "cfheaders", "cfcheckpt", "cfilter", "pingpong")]
+
+
+def run_trunc(case):
+    """Message payloads cut short inside an intact envelope.  The statement demands rejection only for envelopes, so nothing is asserted;
+    what the parsers do with every proper prefix is counted per message kind, so that a change of behaviour shows in the evidence."""
+    import buidl.network as net
+    import buidl.compactfilter as cf
+    from buidl.block import Block
+
+    res = Res()
+    seed, m = case.get("seed", 0), case["m"]
+    stop = filler(seed, "stop", 6, 32)
+    hs = [H("t", seed, i) for i in range(2)]
+    table = {
+        "header": [("block header (80 bytes)", Block.parse_header, R.header(mk_header(seed, 9)))],
+        "headers": [(f"headers ({k} entries)", net.HeadersMessage.parse, R.headers_msg([mk_header(seed, i) for i in range(k)])) for k in (1, 2)],
+        "cfheaders": [(f"cfheaders ({k} hashes)", cf.CFHeadersMessage.parse, R.cfheaders_msg(0, stop, hs[0], hs[:k])) for k in (1, 2)],
+        "cfcheckpt": [(f"cfcheckpt ({k} headers)", cf.CFCheckPointMessage.parse, R.cfcheckpt_msg(0, stop, hs[:k])) for k in (1, 2)],
+        "cfilter": [("cfilter (9 filter bytes)", cf.CFilterMessage.parse, R.cfilter_msg(0, stop, bytes.fromhex("0385acb4f0fe889ef0")))],
+        "pingpong": [("ping", net.PingMessage.parse, bytes(range(1, 9))), ("pong", net.PongMessage.parse, bytes(range(1, 9)))],
+    }[m]
+    for name, parse, raw in table:
+        full = attempt(parse, io.BytesIO(raw))
+        if rej(full):
+            res.skip("well-formed message already rejected (reported by the parse cases)")
+            continue
+        for cut in range(1, len(raw) + 1):
+            got = attempt(parse, io.BytesIO(raw[: len(raw) - cut]))
+            res.ok(f"{name} cut short (not asserted): " + ("rejected" if rej(got) else "accepted"))
     return res
 
 
@@ -1497,9 +2513,45 @@ RULES = {
     "tx count at first/last entry must be refused); cfilter with valid BIP158 filters of every length 1..300, 1000, 4096 (thorough: ..1199, 16384, "
     "65535..65538) x type{5} x hash{2}; cfheaders/cfcheckpt counts x type{3} x stop{3} (thorough + 65535, 65536) incl. last filter header chain; "
     "ping/pong 6 nonces; verack. Non-trivial = each distinct payload",
+    "widths": "int_to_little/big_endian and inverses for widths 0,5,6,7,16,20,33,64 (0, 1, 255, every 2^(8k) and its two neighbours, half range, 4 seed fillers, "
+    "-1, -2, -2^(8w), 2^(8w)..) and for widths 3,4,8,32 about 4096 (thorough 65536) values spread with an odd step over the whole range; CompactSize "
+    "encode/read for 4099 (65536) values spread over each of [0x10400,2^24), [2^24,2^32), [2^32,2^48), [2^48,2^64); every 2-byte wide form fd xx xx (all "
+    "65536) and 4096 (65536) values of the fe and ff forms: rejected if non-minimal, else the layout value and exact position; var strings of lengths "
+    "601..65529 step 4099; bytearray/memoryview/bool inputs: rejected or the result for the equivalent bytes/int. Non-trivial = each distinct value",
+    "cmdbytes": "4 networks x command lengths {1,2,11,12} x position {first, middle, last} x every byte value 0x01..0xff at that position (rest: seed-chosen "
+    "a-z) x payload length {0,3}: serialize == reference bytes; parse (BytesIO and a stream delivering 5 bytes at a time) returns exactly the command bytes "
+    "on the wire, payload, magic, position; reserialize. Byte 0x00 (leading/embedded/trailing NUL) is outside the statement: counted with the observed "
+    "behaviour, never asserted. Non-trivial = each (network, command, payload length)",
+    "cmdsum": "4 networks x 22 command names (the 21 real names of the envelope engine and those of the 13 message classes) x payload length {0, 1, 100000} (thorough + 2^20): the intact envelope and "
+    "one fault each - each checksum byte xor 0x10, first/middle/last payload byte xor 1, last payload byte missing (original and recomputed checksum), "
+    "length +1 (both checksums) and -1 - decided by the strict reference receiver; a failure is re-tried on ping/8 bytes and the fingerprint names "
+    "the command or payload size it depends on; per network every single-bit flip, nibble swap and complement of each magic byte of 2 envelopes. "
+    "Non-trivial = every mutated byte string",
+    "reuse": "per network 4 envelopes (payload 0,8,253,65536): serialize x3, stream x2, fields, parse twice, parsed object serialize x2 / stream x2 - all equal "
+    "to the reference; 14 message/header objects (built and parsed): four serialize() calls give the reference bytes; GetDataMessage: every "
+    "history of 1..4 (thorough 6) operations over {add entry A, add entry B, serialize} + final serialize: each serialize == count|(type,hash)* of the "
+    "entries so far; API variants: NetworkEnvelope without network, parse_header(hex=upper/lower, stream=), Block.parse(header|00), VersionMessage() with "
+    "all defaults (clock/randint replaced), getcf*/getheaders with default arguments == layout of their own field values. Non-trivial = each object/history",
+    "fieldrange": "each integer field of version (6 fields), getheaders.version, getdata.type, getcfilters/getcfheaders/getcfcheckpt filter_type and start_height, "
+    "header version/time given 2^(8w)-1, 2^(8w), +1, +255, <<8, <<32, -1, -2, -2^(8w-1), -2^(8w-1)-1, -2^(8w), -2^(8w)-1: rejected, or the message "
+    "equals the layout with field bytes that decode (unsigned or two's complement) to that value; ports and the getheaders count: values no "
+    "field/CompactSize can hold must be rejected; relay given as 12 non-bool values: rejected or 00/01 by truth value. Byte fields of a wrong width "
+    "(ip, nonce, hashes, bits): counted with the observed behaviour, not asserted. Non-trivial = each (field, value)",
+    "hdrtx": "headers messages of 1..5 entries with a transaction count {1, 0xfc, 0xfd, 0xffff, 0x10000, 2^32} at every position, and of 252, 253, 2000 entries at "
+    "positions {1, n/2, n-2}: must be refused (fingerprint names first/last/interior entry or the count value when the one-entry message is refused); "
+    "count 0 in the three wide encodings: counted, not asserted. Non-trivial = each (entries, position, count)",
+    "trunc": "every proper prefix of a block header, headers (1, 2 entries), cfheaders (1, 2), cfcheckpt (1, 2), cfilter, ping, pong payload handed to the "
+    "parser: accepted/rejected counted per message kind, nothing asserted (the statement demands rejection of damaged envelopes only)",
     "node": "explicit histories through the real SimpleNode (fake socket): wait_for(X) for 7 wanted classes (+2 pairs) x every prefix of <= 2 (quick) / 3 "
     "(thorough) incoming events from a 12-event alphabet (incl. bad checksum, foreign magic) x 4 networks; handshake histories; send of 10 message "
     "kinds. Compared with a protocol model: bytes sent (verack per version, pong per ping), returned message fields, unread remainder. "
+    "Event alphabet now 17: + a 70000-byte unknown message, a ping with a damaged payload and a version with a damaged checksum (must not be answered), a "
+    "length field larger than the stream, a payload-less envelope whose length says 1 (each decided by the reference receiver on the actual "
+    "stream); wait_for() without classes; every history of <= 1 event, send and a handshake repeated with logging=True; an envelope with a "
+    "non-ASCII command (refused or ignored, nothing else). Mode socket: the real SimpleNode.__init__ with buidl.network.socket replaced by a stub "
+    "whose socket() is one end of a real socketpair (recv limited to step bytes, connect recorded): 4 networks x step {1,7,1460,2^20} x "
+    "{version+ping+large block+verack+pong then EOF, stream closed one byte early, handshake}, payload 2000/100000 (thorough 2^20): connect "
+    "address (given port or the network's default P2P port), bytes sent, returned message, next envelope, EOF. "
     "states/transitions = incoming envelopes processed",
 }
 
@@ -1522,14 +2574,17 @@ def _spread(gen, chunk):
 
 
 def engines(tier, seed):
-    g1, r1 = _merged([("ints", gen_ints, run_ints), ("varint", gen_varint, run_varint)])
-    g3, r3 = _merged([("msgparse", gen_msgparse, run_msgparse), ("msgser", gen_msgser, run_msgser), ("header", gen_header, run_header), ("version", gen_version, run_version)])
+    g1, r1 = _merged([("ints", gen_ints, run_ints), ("varint", gen_varint, run_varint), ("widths", gen_widths, run_widths)])
+    g3, r3 = _merged([("msgparse", gen_msgparse, run_msgparse), ("msgser", gen_msgser, run_msgser), ("header", gen_header, run_header), ("version", gen_version, run_version),
+                      ("reuse", gen_reuse, run_reuse), ("fieldrange", gen_fieldrange, run_fieldrange), ("hdrtx", gen_hdrtx, run_hdrtx), ("trunc", gen_trunc, run_trunc)])  # fmt: skip
+    g5, r5 = _merged([("cmdbytes", gen_cmdbytes, run_cmdbytes), ("cmdsum", gen_cmdsum, run_cmdsum)])
     q = tier == "quick"
     # quick: the light engines need < 1 s of CPU; a few big chunks keep the number of spawned workers (the dominant cost) small
     return [
-        Engine("prims", g1, r1, kind="E1", chunk=20 if q else 1, rule="[ints] " + RULES["ints"] + " [varint] " + RULES["varint"]),
+        Engine("prims", g1, r1, kind="E1", chunk=20 if q else 1, rule="[ints] " + RULES["ints"] + " [varint] " + RULES["varint"] + " [widths] " + RULES["widths"]),
         Engine("envelope", gen_envelope, run_envelope, kind="E1", chunk=460 if q else None, rule=RULES["envelope"]),
         Engine("corrupt", gen_corrupt, run_corrupt, kind="E1", chunk=54 if q else None, rule=RULES["corrupt"]),
-        Engine("messages", _spread(g3, 6), r3, kind="E1", chunk=6, rule=" ".join(f"[{k}] " + RULES[k] for k in ("header", "version", "msgser", "msgparse"))),
+        Engine("messages", _spread(g3, 6), r3, kind="E1", chunk=6, rule=" ".join(f"[{k}] " + RULES[k] for k in ("header", "version", "msgser", "msgparse", "reuse", "fieldrange", "hdrtx", "trunc"))),
+        Engine("frames", g5, r5, kind="E1", chunk=80 if q else None, rule=" ".join(f"[{k}] " + RULES[k] for k in ("cmdbytes", "cmdsum"))),
         Engine("node", gen_node, run_node, kind="E2", chunk=1200 if q else None, rule=RULES["node"]),
     ]
